@@ -32,6 +32,7 @@ var scalarFields = []string{
 	"mem.disableoom", "mem.usehierarchy",
 	"cpu.shares", "cpu.quota", "cpu.period", "cpu.rtruntime", "cpu.rtperiod", "cpu.cpus", "cpu.mems",
 	"pids", "blockio", "rdt",
+	"devrules", // the device cgroup rules of an update request, in order (no plugin can set them)
 }
 
 func flattenRes(r *api.LinuxResources) ResFlat {
@@ -96,6 +97,20 @@ func flattenRes(r *api.LinuxResources) ResFlat {
 	}
 	if v := r.RdtClass; v != nil {
 		f.S["rdt"] = "=" + v.Value
+	}
+	if len(r.Devices) > 0 {
+		var rules []string
+		for _, d := range r.Devices {
+			maj, min := "*", "*"
+			if d.GetMajor() != nil {
+				maj = fmt.Sprint(d.GetMajor().GetValue())
+			}
+			if d.GetMinor() != nil {
+				min = fmt.Sprint(d.GetMinor().GetValue())
+			}
+			rules = append(rules, fmt.Sprintf("%v %s %s:%s %s", d.GetAllow(), d.GetType(), maj, min, d.GetAccess()))
+		}
+		f.S["devrules"] = strings.Join(rules, "|")
 	}
 	for _, h := range r.HugepageLimits {
 		if h == nil {
